@@ -26,7 +26,9 @@ class Base(RuleBasedStateMachine):
         if c.key is not None:
             c.calls_after += 1
             if c.calls_after > c.cap:
-                self.dead = True        # shrink budget used up: remaining runs are no-ops (ctl.best is reported)
+                # shrink budget used up: remaining runs are no-ops (ctl.best is reported).  Rules stay *enabled* on a dead
+                # machine (they return at once), otherwise Hypothesis reports "no available rule" as an invalid definition.
+                self.dead = True
 
     def alive(self):
         return not self.dead
